@@ -239,7 +239,23 @@ func serve(mw wrapper, q Req) Obs {
 	w := newRW()
 	w.inner = inner
 	wrappedOnce(mw).ServeHTTP(w, q.httpReq())
-	return w.obs(inner.calls)
+	o := w.obs(inner.calls)
+	w.outerAdd()
+	return o
+}
+
+// outerAdd is what a well-behaved outer layer or ResponseWriter decorator does all the time (a compression layer adding
+// `Vary: Accept-Encoding`, a tracing layer adding a second value): it ADDS a field line to headers that are already
+// there, on every path including the preflight one, never writing in place. The harness does it after the observation has
+// been taken, so it cannot change what this exchange shows; with header values that share spare capacity with something
+// else the appended value lands in that something else and shows in LATER observations
+// (lesson of seeded change C03-i: singleton slices carved out of one array without a capacity bound).
+func (w *rw) outerAdd() {
+	for k, v := range w.h {
+		if len(v) > 0 {
+			w.h[k] = append(v, "verif-outer-layer-added")
+		}
+	}
 }
 
 // Realistic use wraps a handler ONCE and reconfigures the middleware later, so the harness does the same:
